@@ -38,7 +38,9 @@ def gen_ts(rng, epoch0=False):
         return _dt.datetime.fromtimestamp(0, tz=UTC)
     tz = rng.choice([UTC, UTC, _dt.timezone(_dt.timedelta(hours=5, minutes=30)), _dt.timezone(_dt.timedelta(hours=-8)),
                      _dt.timezone(_dt.timedelta(hours=13, minutes=45))])
-    return _dt.datetime.fromtimestamp(rng.uniform(946684800, 4102444800), tz=tz).replace(microsecond=rng.choice([0, 1, 999, 1000, 123456, 999999]))
+    # mostly 2000-2100; one in eight from the first years after the epoch (small millisecond values) 
+    lo, hi = (946684800, 4102444800) if rng.random() > 0.125 else rng.choice([(1, 10**8), (10**8, 946684800)])
+    return _dt.datetime.fromtimestamp(rng.uniform(lo, hi), tz=tz).replace(microsecond=rng.choice([0, 1, 999, 1000, 123456, 999999]))
 
 
 def gen_update(rng):
@@ -222,6 +224,18 @@ def check_instance(kind, x, viol, counts, epoch0=False):
         z = type(x).from_json_dict(j)
         if norm(z, True) != norm(x, True):
             viol.append(V(PROP, "C20/invocation-input-json-roundtrip-lossy/via-operation-codec", "%r" % (x,)))
+        # the decoded object belongs to its caller (the SDK itself appends fetched pages to the decoded list): whatever is done to it,
+        # decoding the same / another wire dictionary afterwards must not be affected
+        try:
+            ops = z.initial_execution_state.operations
+            if isinstance(ops, list):
+                ops.append(ops[0] if ops else "sentinel")
+            z2 = type(x).from_json_dict(x.to_json_dict())
+            y2 = type(x).from_dict(x.to_dict())
+            if norm(z2, True) != norm(x, True) or norm(y2) != norm(x):
+                viol.append(V(PROP, "C20/decoded-object-aliased-across-decodes/invocation-input", "after the caller extended a decoded operations list, %r decoded differently" % (x,)))
+        except Exception as e:  # noqa: BLE001
+            viol.append(V(PROP, "C20/decode-after-caller-mutation-fails/%s" % type(e).__name__, "%r: %s" % (x, e)))
         return
     if kind == "output":
         y = type(x).from_dict(x.to_dict())
@@ -378,7 +392,7 @@ def run_concurrent(case):
 
 RULE = ("seeded generator of well-typed instances of OperationUpdate, Operation, DurableExecutionInvocationInput and "
         "DurableExecutionInvocationOutput over every operation type/status/sub-type/action, absent/empty/non-empty optionals, nested error "
-        "objects (at least one field set; stack traces of 0-1000 frames), timestamps 2000-2100 with sub-millisecond parts (epoch-0 in a separate slice). Oracle: "
+        "objects (at least one field set; stack traces of 0-1000 frames), timestamps 2000-2100 (one in eight 1970-1999, incl. the first years after the epoch) with sub-millisecond parts (epoch-0 in a separate slice). Oracle: "
         "N(from_dict(to_dict(x))) == N(x) and N(from_json_dict(to_json_dict(x))) == N(x) where N applies exactly the permitted losses "
         "(ms truncation on the JSON path; '' == absent for optional strings; an entirely empty details object == absent), to_json_dict is "
         "JSON-serializable, and every OperationUpdate.create_* factory's wire dict contains every identifier field and option passed. "
